@@ -32,3 +32,7 @@ VARIANTS = [
       "            for i in range(nt):\n                v = xx_raw[i]\n                if v == nodata:\n                    ww[i] = 0\n", names="R-LOOPCARRY", note="xx keeps the previous pixel's value at masked cells"),
     v("c12-twin-wraps", H, "    def _lazycompile(f):\n        inner_decorated = None\n", "    def _lazycompile(f):\n        # filled on first use\n        inner_decorated = None\n", expect="silent"),
 ]
+
+VARIANTS += [
+    v("c12-token-name", A, 'dask_name = f"{name}-{tokenize(xx.data, zones.data, dtype)}"', 'dask_name = f"{name}-{tokenize(xx.data, zones.name, dtype)}"', names="R-TOKEN", note="seeded C12a"),
+]
